@@ -128,3 +128,59 @@ def op_exc_bytecode(c):
     for e in es:
         out += [int(e.start), int(e.end), int(e.target), int(e.depth), 1 if e.lasti else 0]
     return out
+
+
+def _portable(cls, first, codelen, table):
+    code = bytes(codelen)
+    if cls == "Code15":
+        from xdis.codetype.code15 import Code15
+        return Code15(0, 0, 0, 0, code, (), (), (), "f.py", "f", first, table)
+    if cls == "Code2":
+        from xdis.codetype.code20 import Code2
+        return Code2(0, 0, 0, 0, code, (), (), (), "f.py", "f", first, table, (), ())
+    if cls == "Code3":
+        from xdis.codetype.code30 import Code3
+        return Code3(0, 0, 0, 0, 0, code, (), (), (), "f.py", "f", first, table, (), ())
+    if cls == "Code38":
+        from xdis.codetype.code38 import Code38
+        return Code38(0, 0, 0, 0, 0, 0, code, (), (), (), "f.py", "f", first, table, (), ())
+    if cls == "Code310":
+        from xdis.codetype.code310 import Code310
+        return Code310(0, 0, 0, 0, 0, 0, code, (), (), (), "f.py", "f", first, table, (), ())
+    raise ValueError(cls)
+
+
+def op_freeze(c):
+    """c: cls, first, codelen, mapping [[off, line]...], as_dict (bool), order (permutation for dict insertion).
+    Observation: the encoded table bytes, then findlinestarts(frozen) (top-level) and through the
+    opcode module named by c["version"]."""
+    import xdis
+    mp = [tuple(p) for p in c["mapping"]]
+    if c.get("as_dict"):
+        table = {}
+        for i in c.get("order", range(len(mp))):
+            table[mp[i][0]] = mp[i][1]
+    else:
+        table = list(mp)
+    try:
+        if isinstance(table, dict):
+            obj = _portable(c["cls"], c["first"], c["codelen"], table)
+        else:
+            # a list is only accepted after construction (the constructors type-check the field)
+            obj = _portable(c["cls"], c["first"], c["codelen"], b"")
+            if c["cls"] == "Code310":
+                obj.co_linetable = table
+            else:
+                obj.co_lnotab = table
+        obj.freeze()
+        tab = obj.co_linetable if c["cls"] == "Code310" else obj.co_lnotab
+        if isinstance(tab, str):
+            tb = [ord(ch) for ch in tab]
+        else:
+            tb = list(tab)
+        out = [0, len(tb)] + tb
+        out += flat_pairs(list(xdis.findlinestarts(obj)))
+        out += flat_pairs(list(_opc(c["version"]).findlinestarts(obj)))
+        return out
+    except Exception as e:
+        return errobs(e)
